@@ -14,6 +14,10 @@
 (* call does (which panic, in which build profile) is not part of any      *)
 (* listed property.                                                        *)
 (*                                                                         *)
+(* Nothing is assumed about WHERE the buffer lies: a chunk is a [u8; 64],   *)
+(* alignment 1, so a caller-owned working space may start at any address   *)
+(* (the harness also runs the primitives on buffers at odd addresses).     *)
+(*                                                                         *)
 (* split_at_mut is modelled as a stack of views: Split pushes the chosen   *)
 (* half, Pop returns to the parent, whose chunks show what the child did.  *)
 (***************************************************************************)
